@@ -214,6 +214,9 @@ func Method(name string, v any, p, s *int64) (any, error) {
 		if err != nil {
 			return nil, err
 		}
+		if jn, ok := v.(json.Number); ok && !isInt && !Representable(jn) {
+			return nil, unspec("json.Number that is neither an int64 nor exactly a double")
+		}
 		var q *big.Int
 		if isInt {
 			q = big.NewInt(i)
@@ -257,10 +260,10 @@ func Method(name string, v any, p, s *int64) (any, error) {
 		case int64, float64, json.Number:
 			_, isInt, r, _, err := numericInput(v, false)
 			if err != nil {
-				if kindOf(err) == Unspec {
-					return nil, err
-				}
 				return nil, err
+			}
+			if jn, ok := v.(json.Number); ok && !isInt && !Representable(jn) {
+				return nil, unspec("json.Number that is neither an int64 nor exactly a double")
 			}
 			if !isInt && !r.IsInt() {
 				return nil, soft("non-integral number is not a boolean")
